@@ -1,5 +1,5 @@
 """Per-property configuration of bin/check: theorem files, harness commands, correspondence stages."""
-from vlib import stage_pure
+from vlib import stage_pure, stage_gw
 
 PROPS = {
     "C05": {
@@ -67,5 +67,72 @@ PROPS = {
         "technique": "Coq proof (bound, FIFO progress, no panic under the call contract, all op sequences) + differential correspondence of the real Throttle with the extracted step function",
         "level_text": "Unbounded invariant proof on the throttle machine tied to the code by op-sequence differential; the system-level bound is checked on implementation traces (gwrun)",
         "level_note": "trusted: Coq kernel, extraction, Go harness timing (2 s wait for a released starter)",
+    },
+    "C01": {
+        "coq": ["Props/C01.v"],
+        "level": "proof",
+        "harness": ["gwrun", "purediff"],
+        "stages": [("pure", stage_pure, {"suites": ["ressub"], "n_quick": 4000, "n_thorough": 60000}),
+                   ("gw", stage_gw, {"profiles": [("basic", 60, 1500), ("refs", 150, 4000)]})],
+        "rule": "random histories of the real gateway under the harness scheduler (every connection task, cache task and hooked goroutine "
+                "granted one at a time): 2 clients, 3-4 resources with reference graphs (sharing, cycles, self references), "
+                "subscribe/unsubscribe/get, service change/add/remove/custom events made unique by a fresh tag, answers in any order; "
+                "the Coq monitor (Spec/Monitors.v) rebuilds each client's copy from frames and compares it with the service truth at every "
+                "quiescent point; non-trivial = more than 4 client frames and at least one quiescent point; plus direct-drive op sequences on one cached resource",
+        "assumptions": ["consistent service: answers come from the truth at answer time, every mutation of a subscribed resource is announced by an event, per-resource order is preserved",
+                        "protocol 1.2.1 clients only in this stage"],
+        "technique": "Coq proof (single-resource convergence over all schedules, Comp/Conv.v; cache-side model ResSub) + Coq monitor `monitor` (extracted) evaluated on scheduled traces of the real gateway + direct-drive correspondence of the cache side",
+        "level_text": "The single-resource core (cache versioning, subscriber queue, late snapshots) is proved for all schedules; the graph-wide statement is the extracted Coq monitor evaluated on explored histories of the real code",
+        "level_note": "trusted: Coq kernel, extraction, the harness (mock messaging system, consistent mock service, scheduler hooks, frame abstraction in harness/internal/gw); task atomicity (DESIGN section 4); modelled not verified: encoding/json, gorilla/websocket",
+    },
+    "C02": {
+        "coq": ["Props/C02.v"],
+        "level": "proof",
+        "harness": ["gwrun"],
+        "stages": [("gw", stage_gw, {"profiles": [("refs", 200, 5000), ("gets", 100, 2000)]})],
+        "rule": "as C01 with reference-changing events and unsubscribes; the reference client (Spec/Client.v) retains what is reachable from "
+                "direct subscriptions and outstanding subscribe/get requests; after every frame: no dangling reference, no event for an "
+                "unheld resource, right kind, index in range; non-trivial = more than 4 client frames and a quiescent point",
+        "assumptions": ["a client counts an outstanding subscribe/get request as a subscription until it is answered (as ResClient does)"],
+        "technique": "Coq monitor (reference client with reachability retention, extracted) evaluated on scheduled traces of the real gateway; collector theorems pending (DESIGN section 8)",
+        "level_text": "The property is stated as a decidable Coq predicate over observable traces and evaluated on explored histories of the real code; violations are replayable histories",
+        "level_note": "trusted: Coq kernel, extraction, the harness (mock messaging system, consistent mock service, scheduler hooks, frame abstraction in harness/internal/gw); task atomicity (DESIGN section 4); modelled not verified: encoding/json, gorilla/websocket",
+    },
+    "C03": {
+        "coq": ["Props/C03.v"],
+        "level": "proof",
+        "harness": ["gwrun"],
+        "stages": [("gw", stage_gw, {"profiles": [("basic", 100, 2500), ("refs", 150, 4000)]})],
+        "rule": "as C01; every service event carries a unique tag; per client and resource the delivered events must be a contiguous run "
+                "of the service stream (candidate-position tracking, no false alarm on repeated identical events), nothing missing at quiescence",
+        "assumptions": ["no resets/query events in this stage (superseded events are not exercised)"],
+        "technique": "Coq proof (Conv.v: replay invariant of queued events) + Coq monitor for ordered, gap-free, duplicate-free delivery evaluated on scheduled traces of the real gateway",
+        "level_text": "Queue-layer FIFO/version filter proved on the single-resource model; end-to-end statement is the extracted monitor on explored histories",
+        "level_note": "trusted: Coq kernel, extraction, the harness (mock messaging system, consistent mock service, scheduler hooks, frame abstraction in harness/internal/gw); task atomicity (DESIGN section 4); modelled not verified: encoding/json, gorilla/websocket",
+    },
+    "C07": {
+        "coq": ["Props/C07.v"],
+        "level": "proof",
+        "harness": ["gwrun", "purediff"],
+        "stages": [("pure", stage_pure, {"suites": ["dispatch"], "n_quick": 4000, "n_thorough": 80000}),
+                   ("gw", stage_gw, {"profiles": [("basic", 100, 2500), ("refs", 100, 3000)]})],
+        "rule": "as C01; response ledger: every response matches exactly one outstanding request id of that connection, nothing outstanding at quiescence; "
+                "plus the dispatcher differential (exactly one immediate reply or one requester call per method string)",
+        "assumptions": [],
+        "technique": "Coq proof (dispatcher: forwarded or invalidRequest, Proofs/RidPartProofs.v) + Coq response-ledger monitor evaluated on scheduled traces of the real gateway",
+        "level_text": "Dispatcher totality proved; the exactly-one-response statement is the extracted monitor on explored histories",
+        "level_note": "trusted: Coq kernel, extraction, the harness (mock messaging system, consistent mock service, scheduler hooks, frame abstraction in harness/internal/gw); task atomicity (DESIGN section 4); modelled not verified: encoding/json, gorilla/websocket",
+    },
+    "C08": {
+        "coq": ["Props/C08.v"],
+        "level": "proof",
+        "harness": ["gwrun"],
+        "stages": [("gw", stage_gw, {"profiles": [("basic", 100, 2500), ("gets", 100, 2500)]})],
+        "rule": "as C01 with unsubscribe counts (absent, 0, negative, 1..3) and failing gets; ledger driven only by observable successes predicts every "
+                "unsubscribe outcome and is compared with the gateway's own direct counts (introspection) at every quiescent point",
+        "assumptions": [],
+        "technique": "Coq direct-subscription ledger monitor (extracted) evaluated on scheduled traces of the real gateway, cross-checked against verif-tagged introspection of the gateway's counters",
+        "level_text": "The accounting rule is a decidable Coq predicate evaluated on explored histories; violations are replayable histories",
+        "level_note": "trusted: Coq kernel, extraction, the harness (mock messaging system, consistent mock service, scheduler hooks, frame abstraction in harness/internal/gw); task atomicity (DESIGN section 4); modelled not verified: encoding/json, gorilla/websocket",
     },
 }
